@@ -252,7 +252,7 @@ def traffic_session(ctx, sid, prof, length=None):
     start = None
     if rng.random() < P["wrap"]:
         start = HYPER - rng.randint(1, 6)
-    argv = rng.choice(CONFIGS if P["big"] else CONFIGS[:3])
+    argv = rng.choice(CONFIGS if (P["big"] or (prof == "C18" and rng.random() < 0.5)) else CONFIGS[:3])
     sim = mk_sim(rng, argv=argv, start=start)
     s = Session(sid, sim)
     n = len(sim.trx)
